@@ -56,3 +56,11 @@ PROPS['C18']['units'] = ['P', 'C']
 PROPS['C18']['spec_tags'] = ['wire', 'fold', 'sess']
 PROPS['C18']['bounded'] = list(PROPS['C18'].get('bounded', [])) + ['clientsim']
 PROPS['C18']['trusted'] = PROPS['C18']['trusted'] + [TRUSTED_ASYNC, 'the password is one argument the command builder accepts (no LF / NUL after rendering): precondition of do_connect, otherwise Command::argument panics (observation, DESIGN §10)']
+
+TRUSTED_PARSE = "assumed contracts on std: str::parse::<T>() is an uninterpreted function parse_spec::<T> of the text (what Rust accepts as a number is not re-specified), f64 -> Duration conversion uninterpreted (dur_of_f64), str::split_once / String::as_str / to_owned per vx_base.rs"
+TRUSTED_FRAMEGET = 'Frame::get / Frame::find keep ASSUMED contracts (ordered multimap: first field with the key, taken out by get); checked by the bounded stand-in frameops under C19'
+TRUSTED_ORACLE_FIELDS = "oracle: MPD's reply field names and value domains (status, stats, replay_gain_status, ...) transcribed from the protocol reference into the spec functions of contracts/mpd_client/responses.vspec"
+PROPS['C16'] = {'units': ['C'], 'spec_tags': [], 'trusted': [TRUSTED_PARSE, TRUSTED_FRAMEGET, TRUSTED_ORACLE_FIELDS, TRUSTED_STD], 'bounded': []}
+PROPS['C12'] = {'units': ['C'], 'spec_tags': [], 'trusted': [TRUSTED_PARSE, TRUSTED_FRAMEGET, TRUSTED_STD,
+                'panic freedom is an implicit obligation of every LIFTED function (panic!/unreachable!/assert!/unwrap/indexing/overflow carry preconditions); functions not lifted are covered only by the bounded fuzz (bounded_standins: typedfuzz), listed in functions_not_under_contract'],
+                'bounded': ['typedfuzz']}
